@@ -496,6 +496,9 @@ def _is_range_in(starts, idx):
     return idx == list(range(idx[0], idx[0] + len(idx))) and idx[0] in starts
 
 
+GAP = {"n": 0, "nonzero": 0, "max": 0.0}     # rounding gap of the intersection score on identical windows
+
+
 def multiset_periodic(case):
     return bool(case.get("periodic"))
 
@@ -551,8 +554,16 @@ def direct_check(case, obs):
                 return [f"{where}: {r['nscores'] - 1} change scores computed so far, the schedule (total-1) % step == 0 says {e['nscores'] - 1}"]
             if not feq(r["score"], e["score"]):
                 return [f"{where}: last change score {r['score']!r}, specification (max over components) says {e['score']!r}"]
-            if inter and multiset_periodic(case) and r["nscores"] > 1 and r["score"] != 0.0:
-                return [f"{where}: the test window equals the reference window (as a multiset of rows) but the intersection change score is {r['score']!r}, not 0"]
+            if inter and multiset_periodic(case) and r["nscores"] > 1 and (i == 0 or obs["rows"][i - 1]["nscores"] != r["nscores"]):
+                # exact arithmetic: 0 (theorem C11_intersection_zero_equal_windows).  In doubles the score is
+                # 1 - fl(sum of the normalised histogram); the stated bound on that rounding gap is 4 * bins * 2^-53.
+                gap = abs(r["score"])
+                GAP["n"] += 1
+                GAP["nonzero"] += gap != 0.0
+                GAP["max"] = max(GAP["max"], gap)
+                if gap > 4 * sp["bins"] * 2.0 ** -53:
+                    return [f"{where}: the test window equals the reference window (as a multiset of rows) but the intersection change score is {r['score']!r}, "
+                            f"not 0 up to the rounding of the normalisation (bound {4 * sp['bins'] * 2.0 ** -53!r})"]
         for nm in ("ref", "test"):
             ln = r.get(nm + "_len")
             if ln is None:
@@ -801,3 +812,10 @@ def signature(case, obs, msgs):
     p = case["params"]
     return {"step_zero": step_of(p["window_size"], p["sample_period"]) == 0,
             "zero_division": any("ZeroDivisionError" in m for m in msgs)}
+
+
+def extra(ctx):
+    return {"equal_windows_intersection_scores": GAP["n"], "of_which_not_exactly_zero": GAP["nonzero"],
+            "max_abs_score_on_equal_windows": GAP["max"], "stated_bound": "4 * bins * 2^-53",
+            "finding_step_zero": "PCACD(window_size=10) (any round(sample_period*window_size) == 0) raises ZeroDivisionError at update 2*window_size+1; "
+                                 "excluded from the generators, witness WITNESS_STEP0 in harness/c11.py, see notes/design_C11.md"}
